@@ -93,6 +93,20 @@ def strip_comments(line):
     return re.sub(r'\(\*.*?\*\)', '', line)
 
 
+def run_coqchk(prop):
+    """independent re-check of the compiled property file and everything it depends on."""
+    mod = 'PV.' + prop.props_file[len('theories/'):-2].replace('/', '.')
+    t0 = time.time()
+    try:
+        rc, out = sh(f'timeout 1500 coqchk -silent -o -Q theories PV {mod}', timeout=1600, cwd=COQ)
+    except subprocess.TimeoutExpired:
+        return dict(ok=False, rc=-1, summary='coqchk timed out', wall=time.time() - t0)
+    summ = out[out.find('CONTEXT SUMMARY'):][:1500] if 'CONTEXT SUMMARY' in out else out[-1500:]
+    ok = rc == 0 and 'Axioms: <none>' in out
+    return dict(ok=ok, rc=rc, summary=summ, wall=round(time.time() - t0, 1),
+                cmd=f'cd coq && coqchk -silent -o -Q theories PV {mod}')
+
+
 def build_proofs(prop, jobs=16):
     """Full .vo build of the property's Props file (and everything it depends on).
     Returns dict(ok, theorems, closed, assumptions_raw, log, cmd)."""
@@ -319,6 +333,12 @@ def run_check(modname, argv):
                       log='', cmd='(skipped)', rc=0, wall=0)
     else:
         proofs = build_proofs(prop, args.jobs)
+        if tier == 'thorough' and proofs['ok']:
+            chk = run_coqchk(prop)
+            proofs['coqchk'] = chk
+            if not chk['ok']:
+                proofs['ok'] = False
+                proofs['log'] += '\ncoqchk: ' + chk['summary']
 
     # 2. cases: corpus first, then generated
     n = args.n or prop.n_cases[tier]
@@ -435,6 +455,7 @@ def run_check(modname, argv):
             'theorems': proofs['theorems'],
             'print_assumptions_closed': proofs['closed'],
             'print_assumptions_axioms': proofs['axioms'],
+            'coqchk': proofs.get('coqchk', 'not run in the quick tier'),
             'evaluations': len(cases),
             'distinct_nontrivial': len(nontriv),
             'rule': prop.rule,
